@@ -364,10 +364,11 @@ def main():
                   rng.sample([("OUTPUT", n) for n in ou_all if n not in ("syslog", "devlog")], 1)
         ejobs.append((off, not (i % 4 == 3), i))
     # the first entries of each registry switched off (what comes first then is a different, still available name)
-    ejobs.append(([("OUTPUT", "devlog")], True, ne))
+    ejobs.append(([("OUTPUT", "devlog"), ("OUTPUT", "devnull"), ("OUTPUT", "devtty")], True, ne))        # 'file' comes first
+    ejobs.append(([("FILTER", "exclude_spawns_of"), ("DATASOURCE", "cgroup"), ("DATASOURCE", "systemd_unit_name")], False, ne + 1))            # 'exclude_uid' / 'cmdline' come first
     if tr != "quick":
-        ejobs.append(([("OUTPUT", "devlog"), ("OUTPUT", "devnull"), ("OUTPUT", "devtty")], True, ne + 1))
-        ejobs.append(([("FILTER", "exclude_spawns_of"), ("DATASOURCE", "cgroup")], False, ne + 2))
+        ejobs.append(([("OUTPUT", "devlog")], True, ne + 2))
+        ejobs.append(([("OUTPUT", "devlog"), ("OUTPUT", "devnull"), ("OUTPUT", "devtty"), ("OUTPUT", "file"), ("OUTPUT", "noop")], True, ne + 3))
     for f, st in pmap(e2e, ejobs, 4):
         merge_findings(F, f)
         for k, v in st.items():
